@@ -161,7 +161,7 @@ Definition check_segs (cases : list (N * list (N * N * list (N * N * N)) * list 
 (* value encodings from the harness *)
 Definition vnum (micro : Z) (repr : list N) : value := VNum micro repr.
 (* integer-typed value: dtype (true = SS_DT_UNSIGNED_NUM), the 64 bits of CVal, GetValueAsString *)
-Definition vint (unsigned : bool) (bits : N) (repr : list N) : value := int_value unsigned bits repr.
+Definition vint (unsigned : bool) (bits : N) (repr : list N) : value := VInt unsigned bits repr.
 Definition vstr (s : list N) : value := VStr None s.
 Definition vnstr (micro : Z) (s : list N) : value := VStr (Some micro) s.
 
